@@ -213,7 +213,7 @@ def norm_value(L, v, dia, reader="strict"):
     if k == "str":
         if reader == "omni":
             # OmniParser.parse documents: a dash followed by a line end (LF, CR, FF) and all white
-            # space (Python's notion) that begins the next line is removed from the whole text
+            # space (the grammar's six characters, since fix D57) that begins the next line is removed from the whole text
             v = omni_dash(v)
         return fold_sym(L, v) if (dia in ("ODL", "PDS3") or reader == "omni") else v
     if k == "list":
@@ -231,9 +231,9 @@ def norm_value(L, v, dia, reader="strict"):
 
 def omni_dash(s):
     if isinstance(s, str):
-        return re.sub(r"-[\n\r\f]\s*", "", s)
+        return re.sub(r"-[\n\r\f][ \t\n\r\v\f]*", "", s)
     from ..rx import sym_compile
-    return sym_compile(r"-[\n\r\f]\s*").sub("", s)
+    return sym_compile(r"-[\n\r\f][ \t\n\r\v\f]*").sub("", s)
 
 
 def match(got, exp):
